@@ -307,6 +307,9 @@ class ArgumentParser(ParserDeprecations, ActionsContainer, ArgumentLinking, argp
                 namespace, args = self._parse_known_args(args, namespace, **kwargs)
         except argparse.ArgumentError as ex:
             self.error(str(ex), ex)
+        except SystemExit:
+            _ActionPrintConfig.discard_print_config_request(self)
+            raise
 
         return namespace, args
 
